@@ -636,7 +636,7 @@ class CallMixin:
         if k == "dict":
             return self.dict_method(recv, recv_ast, name, pos, kw, st, exc)
         if k == "ref":
-            con = self.find_method(recv.ty.cls, name)
+            con = self.find_method(recv.ty.cls, name) if ("*." + name) not in self.contract.calls else None
             if con is not None:
                 args = pos if self.is_static(con) else [recv] + pos
                 return self.apply_contract(con, args, kw, st, exc, site="%s.%s" % (recv.ty.cls, name))
